@@ -89,10 +89,12 @@ fn gen(args: &Args, emit: &mut dyn FnMut(Value)) {
         }
     }
     // diff-directed hints first (empty on the unchanged tree), then the deterministic boundary families
-    // (long held tails, long buffers, many siblings): in EVERY run
+    // (long held tails, long buffers, many siblings) and the raw-text / white-space family (every raw-text element kind x
+    // markup-like content x end tags with white space before '>' x targets on the element / parent / sibling, every single
+    // cut): in EVERY run
     let hs = hints();
     let hinted = if hs.is_empty() { Vec::new() } else { hint_cases_html(&hs) };
-    for bc in hinted.into_iter().chain(boundary_cases()) {
+    for bc in hinted.into_iter().chain(boundary_cases()).chain(rawtext_cases()) {
         emit(json!({"body": hex(&bc.body), "filters": bc.filters.iter().map(|f| f.to_json()).collect::<Vec<_>>(), "headers": [], "scheds": scheds_json(&bc.scheds), "shape": bc.shape}));
     }
     for _ in 0..args.n {
